@@ -559,3 +559,16 @@ package resolver
 //@   nosafety all pre
 //@   assert at store dnsutil.EDEError.Err#1: value == middleware.ErrResolutionShed
 //@   assert at store dnsutil.EDEError.Err#2: value == middleware.ErrResolutionShed
+//@
+//@ # ---- C07: root priming. The addresses taken from the priming response's additional section become root servers only
+//@ # after the same filter every other glue route applies (usableAddr: not loopback, not a local interface address) -
+//@ # for AAAA and for A alike - and only for names the validated NS set lists
+//@ func (*Resolver).checkPriming
+//@   abstract
+//@   nosafety all pre
+//@   assert at call internal/authority.NewServerFromAddrPort#1: lastret("middleware/resolver.usableAddr#1", 1) && lastret("net/netip.AddrPortFrom#1") == arg0
+//@   assert at call internal/authority.NewServerFromAddrPort#2: lastret("middleware/resolver.usableAddr#2", 1) && lastret("net/netip.AddrPortFrom#2") == arg0
+//@   assert at call net/netip.AddrPortFrom#1: arg0 == lastret("middleware/resolver.usableAddr#1") && arg1 == 53
+//@   assert at call net/netip.AddrPortFrom#2: arg0 == lastret("middleware/resolver.usableAddr#2") && arg1 == 53
+//@   assert at call middleware/resolver.usableAddr#1: arg0 == v6.AAAA
+//@   assert at call middleware/resolver.usableAddr#2: arg0 == v4.A
